@@ -56,24 +56,24 @@ type Violation struct {
 
 // Stats is the per-worker summary line.
 type Stats struct {
-	Property    string           `json:"property"`
-	Runs        int64            `json:"runs"`
-	Nontrivial  int64            `json:"nontrivial_runs"`
-	Decisions   int64            `json:"decisions"`
-	Probes      int64            `json:"probes"`
-	Switches    int64            `json:"switches"`
-	Preempts    int64            `json:"preempts"`
-	WakeChoices int64            `json:"wake_choices"`
-	TimerFires  int64            `json:"timer_fires"`
-	EagerFires  int64            `json:"eager_timer_fires"`
-	SimTimeNs   int64            `json:"sim_time_ns"`
-	Tasks       int64            `json:"tasks"`
-	Counters    map[string]int64 `json:"counters"`
-	Policies    map[string]int64 `json:"policies"`
-	Reruns      int64            `json:"determinism_reruns"`
-	WallS       float64          `json:"wall_s"`
+	Property    string            `json:"property"`
+	Runs        int64             `json:"runs"`
+	Nontrivial  int64             `json:"nontrivial_runs"`
+	Decisions   int64             `json:"decisions"`
+	Probes      int64             `json:"probes"`
+	Switches    int64             `json:"switches"`
+	Preempts    int64             `json:"preempts"`
+	WakeChoices int64             `json:"wake_choices"`
+	TimerFires  int64             `json:"timer_fires"`
+	EagerFires  int64             `json:"eager_timer_fires"`
+	SimTimeNs   int64             `json:"sim_time_ns"`
+	Tasks       int64             `json:"tasks"`
+	Counters    map[string]int64  `json:"counters"`
+	Policies    map[string]int64  `json:"policies"`
+	Reruns      int64             `json:"determinism_reruns"`
+	WallS       float64           `json:"wall_s"`
 	Samples     []json.RawMessage `json:"samples"`
-	Violations  int              `json:"violations"`
+	Violations  int               `json:"violations"`
 }
 
 var watchdogStamp int64
